@@ -20,6 +20,9 @@ Three harnesses, all on the real implementation (trackpy from $TRACKPY_REPO):
  (B) batch: tp.batch(frames, processes in {1, 2, 4, 'auto'}) against the
      concatenation of tp.locate(frame) tagged with the frame number (position or
      pims-style frame_no attribute), blank frames, shuffled orders.
+ (B2) batch on ndarray-subclass frames whose frame_no differs from their position:
+     sub-clip (frames 20..25 of a longer movie), reversed, strided selections with
+     processes in {1, 2, 3}: the rows are the full movie's rows of those frames.
 
 Coq side (Properties/C09.v): the discrete pipeline model (C06 maxima + C07
 refinement) is run inside Coq on small canvases and compared with
@@ -779,6 +782,93 @@ def unj_batch(j):
                 nos=j['nos'], order=j['order'])
 
 
+# ------------------------------------------- batch: frame numbers that are not positions
+# Properties/C09.v (17)-(20): every row carries ITS FRAME'S frame_no, read by the parent process;
+# a sub-clip / reversed / strided selection of a numbered movie yields exactly the rows
+# the full movie yields for those frames, for any number of worker processes.
+def clip_selections(n):
+    return [('sub-clip', list(range(3, 9))),
+            ('reversed', list(range(n - 1, -1, -1))),
+            ('strided', list(range(1, n, 3))),
+            ('reversed strided sub-clip', list(range(9, 2, -2)))]
+
+
+def gen_batch_clip(rng, lossy, first=None):
+    nf = 12
+    shape = (rng.randint(30, 44), rng.randint(30, 50))
+    frames = []
+    for k in range(nf):
+        if rng.random() < 0.15:
+            frames.append(np.zeros(shape, dtype='uint8'))
+        else:
+            frames.append(gen_content(rng, shape, rng.choice(['blobs', 'mixed']), 'uint8'))
+    p = dict(diameter=rng.choice([3, 5, (5, 7)]), preprocess=rng.random() < 0.5, percentile=rng.choice([64, 30]))
+    if rng.random() < 0.3:
+        p['topn'] = 2
+    if first is None:
+        first = rng.randint(14, 40)      # sub-clip [3:9] of a movie numbered from 17 is frames 20..25
+    return dict(kind='batch_clip', frames=frames, params=p, tagging='lossy' if lossy else 'frame_no',
+                nos=list(range(first, first + nf)), order=list(range(nf - 1, -1, -1)))
+
+
+def eval_batch_clip(chk, c, procs):
+    import trackpy as tp
+    import pandas as pd
+    res = dict(what=None)
+    kw = dict(c['params'])
+    d = kw.pop('diameter')
+    n = len(c['frames'])
+
+    def run(sel, pr):
+        with warnings.catch_warnings():
+            warnings.simplefilter('ignore')
+            try:
+                return tp.batch(wrap_frames(c, sel), d, processes=pr, **kw)
+            except Exception as e:
+                return 'EXC:' + type(e).__name__
+
+    full = run(list(range(n)), 1)
+    if isinstance(full, str):
+        chk.tally('batch clip: locate raises on the full movie (%s), skipped' % full)
+        return res
+    for name, sel in clip_selections(n):
+        nos = [c['nos'][i] for i in sel]
+        assert all(no != k for k, no in enumerate(nos))       # frame numbers differ from positions
+        parts = [full[full['frame'] == no] for no in nos] if len(full) else []
+        nexp = sum(len(q) for q in parts)
+        for pr in procs:
+            got = run(sel, pr)
+            chk.tally('batch clip %s processes=%s' % (name, pr))
+            bad = None
+            if isinstance(got, str):
+                bad = 'raises %s' % got
+            elif nexp == 0:
+                if len(got) != 0 or 'frame' not in got.columns:
+                    bad = '%d rows, columns %s, but the full movie has no feature in these frames' % (len(got), list(got.columns))
+            else:
+                exp = pd.concat(parts)
+                if list(got.columns) != list(exp.columns):
+                    bad = 'columns %s vs %s' % (list(got.columns), list(exp.columns))
+                elif len(got) != len(exp):
+                    bad = 'row count %d vs %d' % (len(got), len(exp))
+                elif list(got.index) != list(range(len(exp))):
+                    bad = 'index is not 0..n-1'
+                elif [int(v) for v in got['frame'].tolist()] != [int(v) for v in exp['frame'].tolist()]:
+                    bad = 'frame numbers %s vs %s' % (sorted(set(got['frame'].tolist())), nos)
+                else:
+                    g = np.array(got.values.tolist(), dtype=float)
+                    e = np.array(exp.values.tolist(), dtype=float)
+                    if not (g.shape == e.shape and bool(np.all(np.isclose(g, e, rtol=1e-12, atol=0, equal_nan=True)))):
+                        bad = 'values / order'
+            if bad:
+                res['what'] = ('batch(%s of a movie numbered %d..%d, processes=%s) is not the full movie\'s rows of the frames %s: %s'
+                               % (name, c['nos'][0], c['nos'][-1], pr, nos, bad))
+                res['sig'] = 'batch: selection of numbered frames differs from the full movie (%s)' % bad.split(' ')[0]
+                res['procs'], res['clip'] = pr, name
+                return res
+    return res
+
+
 # ------------------------------------------------------------ Coq literals
 def carr(a):
     if a.ndim == 1:
@@ -874,6 +964,50 @@ def pipeline_terms(c):
     t2 = "(%s, %s, %s, %s, %s, %s, %s)" % (cQ(thr), P, cimage(content.astype(np.int64)), czl(c['shape1']), czl(c['off1']),
                                            czl(c['shape2']), czl(c['off2']))
     return t1, t2
+
+
+IMPORTS_W = ("From TP Require Import Model.Dilation Model.COM Model.COMCheck "
+             "Model.Equivariance Model.LocateTail Model.LocateWhole Model.LocateWholeCheck.")
+WHOLE_FUNC = ("fun c => match c with (thr, P, T, content, sh1, off1, rows) => "
+              "check_whole thr P T (embed sh1 off1 content) rows end")
+WHOLE_CODES = {40: 'number of rows differs from the model', 41: 'a position differs from the model', 42: 'a mass differs from the model'}
+
+
+def whole_terms(c, rng, fixed=None):
+    """small integer preprocess=False case -> (check_whole term, chosen minmass/topn): locate's own final table
+    (duplicate removal, minmass, topn applied by locate) against Model/LocateWhole.locate_whole"""
+    p = dict(c['params'])
+    content = c['content']
+    nd = content.ndim
+    A0 = place(content, c['shape1'], c['off1'])
+    thr = threshold_of(A0, p.get('percentile', 64))
+    if thr is None:
+        return None
+    base = run_locate(A0, p)
+    if isinstance(base, str):
+        return None
+    minmass, topn = None, None
+    if fixed is not None:
+        minmass, topn = fixed.get('minmass'), fixed.get('topn')
+    elif len(base):
+        m = np.sort(base['mass'].values)
+        r = rng.random()
+        if r < 0.5:
+            minmass = float(m[len(m) // 2]) if r < 0.25 else float(m[0])
+        if rng.random() < 0.5:
+            topn = rng.choice([1, 2, 3])
+    if minmass is not None:
+        p['minmass'] = minmass
+    if topn is not None:
+        p['topn'] = topn
+    tab = run_locate(A0, p)
+    if isinstance(tab, str):
+        return None
+    rows = ["(%s, %s)" % (clist([cQ(float(r[a])) for a in AX[nd]]), cQ(float(r['mass']))) for _, r in tab.iterrows()]
+    T = "(mkTP %s None %s)" % (cQ(minmass if minmass is not None else 0), "(Some %d%%nat)" % topn if topn is not None else "None")
+    return ("(%s, %s, %s, %s, %s, %s, %s)" % (cQ(thr), clparams(p, nd), T, cimage(content.astype(np.int64)), czl(c['shape1']), czl(c['off1']),
+                                              clist(rows) if rows else "(@nil (list Q * Q))"),
+            dict(minmass=minmass, topn=topn))
 
 
 def trow_terms(df, nd, exact_cols, approx_cols, pos_cols):
@@ -995,6 +1129,20 @@ def run(chk):
         if b == 20:
             chk.proof_broken('Proofs/Equivariance.locate_discrete_moved (executed model contradicts it)', json.dumps(j_translation(c))[:3000])
         chk.tally('model moved: %s' % {0: 'equal up to the offset', 21: 'no maxima'}.get(b, 'code %d' % b))
+    # whole pipeline incl. the tail: locate's own final table against Model/LocateWhole.locate_whole
+    wts, usedw = [], []
+    for c in small:
+        t = whole_terms(c, rng)
+        if t is not None:
+            wts.append(t[0]); usedw.append((c, t[1]))
+    for (c, wpost), code in zip(usedw, common.coq_eval_lists(chk.work, IMPORTS_W, WHOLE_FUNC, wts, tag='whole', shard=10)):
+        chk.count(('MW', j_translation(c)), code == 0)
+        chk.tally('model whole pipeline: %s' % {0: '= locate', 97: 'pair at the separation boundary (skipped)', 98: 'tie (skipped)',
+                                                 99: 'shift decision within 2^-40 of shift_thresh (skipped)'}.get(code, 'code %d' % code))
+        if code in WHOLE_CODES:
+            chk.violation('locate whole pipeline: ' + WHOLE_CODES[code],
+                          'locate(preprocess=False) differs from Model/LocateWhole.locate_whole (maxima, refinement, where_close, minmass, topn): ' + WHOLE_CODES[code],
+                          dict(j_translation(c), whole_code=code, whole_post=wpost))
     xs = [gen_transposition(rng, chk.tier, small=True) for _ in range(nM)]
     tts, usedx = [], []
     for c in xs:
@@ -1019,14 +1167,31 @@ def run(chk):
         chk.tally('batch tagging=%s' % c['tagging'])
         if r.get('what'):
             chk.violation(r['sig'], r['what'], dict(j_batch(c), processes=r['procs'], used_order=r['order']))
+    # ---- (B2) batch on frames whose frame_no is not their position: sub-clip 20..25, reversed, strided; processes 1/2/3
+    nB2 = 2 if quick else 8
+    for k in range(nB2):
+        c = gen_batch_clip(rng, lossy=(k % 2 == 1), first=17 if k < 2 else None)
+        r = eval_batch_clip(chk, c, [1, 2, 3])
+        chk.count(('B2', j_batch(c)), True)
+        chk.tally('batch clip tagging=%s' % c['tagging'])
+        if r.get('what'):
+            chk.violation(r['sig'], r['what'], dict(j_batch(c), kind='batch_clip', processes=r['procs'], clip=r['clip']))
+            continue
+        # the sub-clip on its own, in order and reversed, against locate per frame
+        sub = dict(c, kind='batch', frames=c['frames'][3:9], nos=c['nos'][3:9], order=list(range(5, -1, -1)))
+        r = eval_batch(chk, sub, [1, 2, 3])
+        if r.get('what'):
+            chk.violation(r['sig'], r['what'], dict(j_batch(sub), processes=r['procs'], used_order=r['order']))
     chk.coverage['rule'] = ("(T) content images (blobs, plateaus, dim ladders, noise, few grey levels, close pairs; uint8/uint16/float; 2-D/3-D) pasted at two "
                             "integer offsets into blank canvases that keep margin + radius + max_iterations + filter reach from the edge, canvas size equal or "
                             "different, incl. two 1200x1000 canvases; locate parameters random; (X) integer images, every axis order, preprocess=False; "
                             "(B) 3-8 frames incl. blank ones, with/without frame_no, shuffled, processes 1/2/4(/auto); "
-                            "Coq: discrete pipeline model vs grey_dilation+refine_com_arr, model on two placements and on the transpose, verified table monitor. "
+                            "(B2) 12-frame movies of ndarray-subclass frames numbered from 14..40 (frame_no kept or lost when pickled): sub-clip [3:9], reversed, strided, "
+                            "reversed strided selections with processes 1/2/3 against the full movie's rows of those frames and against locate per frame; "
+                            "Coq: discrete pipeline model vs grey_dilation+refine_com_arr, whole-pipeline model (incl. where_close, minmass, topn) vs locate's final table, model on two placements and on the transpose, verified table monitor. "
                             "non-trivial = at least one feature located; distinct by content hash")
     chk.assumptions += [
-        "translation is proved for the integer preprocess=False pipeline (maxima + refinement) only; bandpass, where_close on refined rows, filters, topn, ep are covered by the correspondence run",
+        "translation / axis permutation are proved for the integer preprocess=False pipeline: maxima + refinement unconditionally, duplicate removal + minmass/maxsize + topn (Model/LocateWhole.v) under the boolean no_tie hypothesis (no equal masses among rows closer than separation / at the topn step; F15, F17 are such ties); bandpass and ep are covered by the correspondence run only",
         "transposition: proved for the maxima stage; refinement / mask sums under axis reversal are executed in the model (model_transposed) and compared on the implementation, not proved",
         "np.percentile enters the theorems as a section variable: invariant under permutation, non-negative on non-negative samples",
         "Pool.imap hands results out in task order (modelled: completion order arbitrary, hand-out by index); that the workers compute what locate computes in-process is tested, not proved",
@@ -1052,12 +1217,26 @@ def replay(chk, path):
                 print('replay: check_pipeline code', code, PIPE_CODES.get(code))
                 if code not in (0, 99):
                     chk.violation('locate pipeline: ' + PIPE_CODES.get(code, str(code)), PIPE_CODES.get(code, str(code)), j)
+        if 'whole_code' in j:
+            t = whole_terms(c, chk.rng, fixed=j.get('whole_post') or {})
+            if t:
+                code = common.coq_eval_lists(chk.work, IMPORTS_W, WHOLE_FUNC, [t[0]])[0]
+                print('replay: check_whole code', code, WHOLE_CODES.get(code))
+                if code in WHOLE_CODES:
+                    chk.violation('locate whole pipeline: ' + WHOLE_CODES[code], WHOLE_CODES[code], j)
     elif k == 'transposition':
         c = unj_transposition(j)
         r = eval_transposition(chk, c)
         chk.count(('X', j), True)
         print('replay: original\n', r['A'], '\nreplay: transposed (axes named back)\n', r['B'], '\n', r.get('what'))
         report(chk, r, j)
+    elif k == 'batch_clip':
+        c = unj_batch(j)
+        r = eval_batch_clip(chk, c, [1, 2, 3])
+        chk.count(('B2', j), True)
+        print('replay:', r.get('what'))
+        if r.get('what'):
+            chk.violation(r['sig'], r['what'], j)
     elif k == 'batch':
         c = unj_batch(j)
         r = eval_batch(chk, c, [1, 2, 4])
